@@ -33,7 +33,7 @@ From RV Require Import Lib.Res Repl.ClientTicks Repl.World Vis.Visibility Repl.S
   Repl.StructSpec Repl.StructVisSpec Repl.ClientSys_proofs Repl.ClientStructSpec
   Repl.StructE2E_proofs Repl.StructE2EMut_proofs Repl.StructE2ESess_proofs Repl.ValSpec.
 From RV Require Import Events.Remote Events.RemoteSpec Events.Remote_proofs Events.RemoteRun Events.RemoteRunProj_proofs
-  Events.RemoteRunTick_proofs Events.RemoteRunE1_proofs.
+  Events.RemoteRunTick_proofs Events.RemoteRunE1_proofs Events.RemoteRunLedger_proofs Events.RemoteRunOnce_proofs Events.RemoteRunE2_proofs.
 Open Scope N_scope.
 
 (* ---------- E0: the projection ---------- *)
@@ -186,10 +186,30 @@ Theorem C04E_end_to_end : forall c n script tick dt cleanup ops parts emit mid s
   forall ty q ent, In (ty, q, ent) (eo_got o4) -> independent ty = false ->
   exists cl tk' m',
     al_get slot (y_clients (e_sys e4)) = Some cl /\ deliverable cl m' = Some (ty, q, ent) /\ sm_tick m' = Some tk' /\
-    tk' <= cl_upd_tick cl /\ tk = last_tick (usent g2 slot) /\
+    In m' (held_all e3 slot) /\ tk' <= cl_upd_tick cl /\ tk = last_tick (usent g2 slot) /\
     (tk <= tk' -> is_prefix (usent g2 slot) (uapplied g4 slot)).
 Proof. exact e1_end_to_end. Qed.
 
+(* ... for THE event: with distinct sequence numbers (`seqs_distinct`) the event numbered q that is flushed to the connection
+   and the event numbered q it observes later in the session travel in the same message *)
+Theorem C04E_end_to_end_event : forall c n script tick dt cleanup ops parts emit mid slot cops cemit e1 g1 os1 e2 o2 e3 g3 os3 e4 o4 c2,
+  let stf := ESFrame tick dt cleanup ops parts emit in
+  let stc := ECFrame slot cops cemit in
+  let g2 := ustep e1 g1 stf e2 o2 in
+  let g4 := ustep e3 g3 stc e4 o4 in
+  let full := ((script ++ [stf]) ++ mid) ++ [stc] in
+  escript_ok full = true -> tick_frames (proj_script full) < 2 ^ 31 -> seqs_distinct full ->
+  urun (syse_init c n) ug_init script = Ok (e1, g1, os1) -> syse_step e1 stf = Ok (e2, o2) ->
+  urun e2 g2 mid = Ok (e3, g3, os3) -> syse_step e3 stc = Ok (e4, o4) ->
+  emode (script ++ [stf]) slot = MLive -> al_get slot (y_clients (e_sys e2)) = Some c2 ->
+  forallb (fun b => negb (ends_session slot b)) (proj_script mid) = true ->
+  forall m tk ty q ent, In (slot, m) (eo_sent o2) -> sm_tick m = Some tk -> sm_seq m = q ->
+  In (ty, q, ent) (eo_got o4) -> independent ty = false ->
+  exists cl, al_get slot (y_clients (e_sys e4)) = Some cl /\ deliverable cl m = Some (ty, q, ent) /\
+    tk <= cl_upd_tick cl /\ tk = last_tick (usent g2 slot) /\ is_prefix (usent g2 slot) (uapplied g4 slot).
+Proof. exact e1_end_to_end_seq. Qed.
+
+Print Assumptions C04E_end_to_end_event.
 Print Assumptions C04E_projection.
 Print Assumptions C04E_projection_from.
 Print Assumptions C04E_projection_step.
@@ -297,9 +317,43 @@ Proof.
   assert (Hb : tick_frames (proj_script c04e_script) < 2 ^ 31) by (rewrite (proj1 (proj2 C04E_ex_premises)); reflexivity).
   destruct (C04E_end_to_end c04e_cfg 3 c04e_pre true 16 false [SSpawn 2 true [(0, VNat 9)]] [] [(SEM, (999, false, false), 8, Some 2)]
               c04e_mid 1 [] [] e1 g1 os1 e2 o2 e3 g3 os3 e4 o4 c2 (proj1 C04E_ex_premises) Hb E1 E2 E3 E4 eq_refl Ec2 eq_refl
-              (mkSMsg SEM (Some 3) 8 (Some 2)) 3 Hin eq_refl SEM 8 (Some 2) Hgot eq_refl) as (cl & tk' & m' & A1 & A2 & A3 & A4 & A5 & A6).
+              (mkSMsg SEM (Some 3) 8 (Some 2)) 3 Hin eq_refl SEM 8 (Some 2) Hgot eq_refl) as (cl & tk' & m' & A1 & A2 & A3 & _ & A4 & A5 & A6).
   exists e1, g1, os1, e2, o2, e3, g3, os3, e4, o4, c2, cl, tk', m'. repeat (split; [first [assumption|reflexivity]|]).
   vm_compute in E1. injection E1 as <- <- _. vm_compute in E2. injection E2 as <- <-. vm_compute. reflexivity.
+Qed.
+
+Example C04E_ex_seqs : seqs_distinct c04e_script.
+Proof. unfold seqs_distinct. vm_compute. repeat constructor; cbn; intuition discriminate. Qed.
+
+(* ... and C04E_end_to_end_event: SEM/8 itself *)
+Example C04E_ex_instance_event :
+  exists e1 g1 os1 e2 o2 e3 g3 os3 e4 o4 cl,
+    urun (syse_init c04e_cfg 3) ug_init c04e_pre = Ok (e1, g1, os1) /\ syse_step e1 c04e_flush_step = Ok (e2, o2) /\
+    urun e2 (ustep e1 g1 c04e_flush_step e2 o2) c04e_mid = Ok (e3, g3, os3) /\ syse_step e3 c04e_last = Ok (e4, o4) /\
+    al_get 1 (y_clients (e_sys e4)) = Some cl /\ deliverable cl (mkSMsg SEM (Some 3) 8 (Some 2)) = Some (SEM, 8, Some 2) /\
+    3 <= cl_upd_tick cl /\
+    is_prefix (usent (ustep e1 g1 c04e_flush_step e2 o2) 1) (uapplied (ustep e3 g3 c04e_last e4 o4) 1).
+Proof.
+  destruct (urun (syse_init c04e_cfg 3) ug_init c04e_pre) as [[[e1 g1] os1]| |] eqn:E1; [|vm_compute in E1; discriminate..].
+  destruct (syse_step e1 c04e_flush_step) as [[e2 o2]| |] eqn:E2;
+    [|vm_compute in E1; injection E1 as <- _ _; vm_compute in E2; discriminate..].
+  destruct (urun e2 (ustep e1 g1 c04e_flush_step e2 o2) c04e_mid) as [[[e3 g3] os3]| |] eqn:E3;
+    [|vm_compute in E1; injection E1 as <- <- _; vm_compute in E2; injection E2 as <- <-; vm_compute in E3; discriminate..].
+  destruct (syse_step e3 c04e_last) as [[e4 o4]| |] eqn:E4;
+    [|vm_compute in E1; injection E1 as <- <- _; vm_compute in E2; injection E2 as <- <-; vm_compute in E3; injection E3 as <- _ _;
+      vm_compute in E4; discriminate..].
+  destruct (al_get 1 (y_clients (e_sys e2))) as [c2|] eqn:Ec2;
+    [|vm_compute in E1; injection E1 as <- _ _; vm_compute in E2; injection E2 as <- _; vm_compute in Ec2; discriminate].
+  assert (Hin : In (1, mkSMsg SEM (Some 3) 8 (Some 2)) (eo_sent o2)).
+  { vm_compute in E1. injection E1 as <- _ _. vm_compute in E2. injection E2 as _ <-. vm_compute. tauto. }
+  assert (Hgot : In (SEM, 8, Some 2) (eo_got o4)).
+  { vm_compute in E1. injection E1 as <- <- _. vm_compute in E2. injection E2 as <- <-. vm_compute in E3. injection E3 as <- _ _.
+    vm_compute in E4. injection E4 as _ <-. vm_compute. tauto. }
+  assert (Hb : tick_frames (proj_script c04e_script) < 2 ^ 31) by (rewrite (proj1 (proj2 C04E_ex_premises)); reflexivity).
+  destruct (C04E_end_to_end_event c04e_cfg 3 c04e_pre true 16 false [SSpawn 2 true [(0, VNat 9)]] [] [(SEM, (999, false, false), 8, Some 2)]
+              c04e_mid 1 [] [] e1 g1 os1 e2 o2 e3 g3 os3 e4 o4 c2 (proj1 C04E_ex_premises) Hb C04E_ex_seqs E1 E2 E3 E4 eq_refl Ec2 eq_refl
+              (mkSMsg SEM (Some 3) 8 (Some 2)) 3 SEM 8 (Some 2) Hin eq_refl eq_refl Hgot eq_refl) as (cl & A1 & A2 & A3 & _ & A5).
+  exists e1, g1, os1, e2, o2, e3, g3, os3, e4, o4, cl. auto 10.
 Qed.
 
 (* ---------- why the premises are there ---------- *)
